@@ -59,7 +59,7 @@ def sources_c06(rng, n):
     c06 = fc._plugin("C06")
     out = []
     for i in range(n):
-        p = c06.G(rng).program()
+        p, _tags = c06.G(rng).program()
         out.append(("c06:%d" % i, c06.wire(p)))
     return out
 
